@@ -296,3 +296,18 @@ Theorem C05_alloc_records_model_sb : forall infos,
   alloc_records_sb (map tallies_of_info infos) (record_alloc_infos 0 infos []) = true.
 Proof. exact alloc_records_model_sb. Qed.
 Print Assumptions C05_alloc_records_model_sb.
+
+(** The same over whole runs ([record_alloc_rounds]: a tuning round discards
+    the samples recorded so far *and* their allocation records,
+    [SampleCollection::clear]): the number of stored samples is that of the kept
+    ones, and stored sample [j] has a record iff its own tally is not empty —
+    never the record of a discarded tuning sample that had the same index. *)
+Theorem C05_alloc_gate_rounds : forall rounds,
+  fst (record_alloc_rounds rounds) = length (kept_infos rounds) /\
+  forall j, alist_find j (snd (record_alloc_rounds rounds)) =
+            match nth_error (kept_infos rounds) (N.to_nat j) with
+            | Some i => if tallies_is_empty i then None else Some i
+            | None => None
+            end.
+Proof. exact alloc_gate_rounds. Qed.
+Print Assumptions C05_alloc_gate_rounds.
